@@ -807,7 +807,8 @@ def _operation(draw, g: Gate, names: list[str], path: str, path_vars: list[str],
     elif tag_kind == "multi_variant":
         # ONE operation listing several spellings of one tag (still one tag group)
         cluster = draw(st.sampled_from([["pets", "Pets", "PETS"], ["data-sources", "data_sources", "DataSources", "datasources"], ["Store", "store"],
-                                        ["AuditLogs", "auditlogs", "audit_logs", "audit-logs"], ["users", "USERS", "Users"]]))
+                                        ["AuditLogs", "auditlogs", "audit_logs", "audit-logs"], ["users", "USERS", "Users"],
+                                        ["user_datax", "userdata_x", "userd_atax"]]))
         op["tags"] = draw(st.permutations(cluster))[:draw(st.integers(2, len(cluster)))]
     if g.flag(draw, "summary", 1, 3):
         op["summary"] = draw(st.sampled_from(["Do the thing", "List things.", "Fetch one"]))
@@ -1018,7 +1019,10 @@ def specs(draw, gate: Gate | None = None, max_schemas: int = 5, max_ops: int = 4
             op_["tags"] = [tag]
     if len(all_ops) >= 2 and g.flag(draw, "tag_variant", 1, 8):
         # one tag written with different word boundaries / separators (still one tag group by alphanumeric content)
-        cluster = draw(st.sampled_from([["data-sources", "data_sources", "dataSources", "datasources", "DataSources"], ["user groups", "user-groups", "userGroups", "usergroups"]]))
+        cluster = draw(st.sampled_from([["data-sources", "data_sources", "dataSources", "datasources", "DataSources"], ["user groups", "user-groups", "userGroups", "usergroups"],
+                                        # same alphanumeric content, equal "prettiness" (case, word count), word boundary elsewhere:
+                                        # whichever spelling is canonical, the module written and the module imported must agree
+                                        ["user_datax", "userdata_x", "userd_atax"], ["ab-cd", "a-bcd", "abc-d"]]))
         for (p_, m_, op_) in all_ops:
             op_["tags"] = [draw(st.sampled_from(cluster))]
     _separate_promo_collisions(all_ops, g)
